@@ -51,6 +51,12 @@ func (c *ctx) drawID(capBits int) (int, string) {
 		k := c.g.Range(5, 17)
 		return (1 << uint(k)) + c.g.Range(-1, 1), fmt.Sprintf("grow2^%d", k)
 	default:
+		if c.shortMarks && c.g.Chance(1, 3) {
+			// far beyond the traversal sizes, in short histories only: Next scans
+			// every word, so a long history over a 2^20-bit set is legitimately slow
+			k := c.g.Range(18, 20)
+			return (1 << uint(k)) + c.g.Range(-1, 1), fmt.Sprintf("grow2^%d", k)
+		}
 		return c.g.Range(0, 1<<17+100), "any"
 	}
 }
@@ -79,6 +85,7 @@ func (c *ctx) marks() {
 	default:
 		nev = g.Range(1, 400)
 	}
+	c.shortMarks = nev <= 12
 	c.logf("NodeMarks(%s) events=%d", ctor, nev)
 	c.hash.Str("marks/" + ctor)
 	maxMarked := -1
